@@ -310,6 +310,16 @@ class Flattener:
                     if depth > 1:
                         new = self.flatten_block(new, ctx_fi, caller_names | _names_stored(new), stack + (t.qualname,), depth - 1, resolve_ctx=t)
                     return new
+        if isinstance(s, (ast.Assign, ast.Return)) and isinstance(s.value, ast.IfExp) and (not isinstance(s, ast.Assign) or len(s.targets) == 1) \
+                and any(isinstance(b, ast.Call) and self.inlinable_target(b, ctx_fi, stack) is not None for b in (s.value.body, s.value.orelse)):
+            # x = A() if c else B   ==>   if c: x = A() else: x = B
+            def arm(v):
+                if isinstance(s, ast.Assign):
+                    return ast.copy_location(ast.Assign(targets=[copy.deepcopy(s.targets[0])], value=v), s)
+                return ast.copy_location(ast.Return(value=v), s)
+            new_if = ast.copy_location(ast.If(test=s.value.test, body=[arm(s.value.body)], orelse=[arm(s.value.orelse)]), s)
+            ast.fix_missing_locations(new_if)
+            return self.flatten_block([new_if], ctx_fi, caller_names, stack, depth)
         outer = s.value if isinstance(s, (ast.Expr, ast.Assign, ast.Return)) and isinstance(getattr(s, "value", None), ast.Call) else None
         if outer is not None and self.inlinable_target(outer, ctx_fi, stack) is None:
             # f(.., helper(..), ..)  ==>  arg = helper(..); f(.., arg, ..)   (only when everything evaluated before it is simple)
